@@ -299,8 +299,9 @@ template <template <class...> class GT, class L> void truncate(Reporter &R, uint
     constexpr bool directed = Dir<GT>::value;
     std::string cls = std::string(Dir<GT>::name()) + "<" + bname<L>() + ">";
     Rng r = caseRng(R.args.seed, hashStr(cls + "trunc"), sub);
-    bool big = sub % 24 == 7;
+    bool big = sub % 24 == 7 && R.args.geti("nobig", 0) == 0;
     GraphSpec s = big ? ioSpecBig(r, directed) : ioSpec(r, directed);
+    if (big && s.edges.size() > 2100) s.edges.resize(r.chance(1, 2) ? 2048 : 1024 + r.u(1077)); // every cut is a full load: keep these files to a few tens of kilobytes
     while (s.edges.empty()) s = ioSpec(r, directed);
     if (big) ++C.bigTruncFiles;
     GT<L> g(s.n);
